@@ -316,6 +316,12 @@ pub fn deblock(data: &[u8], width: usize, strength: u8) -> Vec<u8> {
 
     let mut result = data.to_vec();
 
+    // An image without any rows has no edge to filter, whatever width it is
+    // declared with (a huge width would otherwise overflow `width * 8` below).
+    if result.is_empty() {
+        return result;
+    }
+
     // According to the spec, the horizontal deblocking filter is applied first.
     deblock_horiz(result.as_mut(), width, strength);
     deblock_vert(result.as_mut(), width, strength);
